@@ -210,6 +210,7 @@ func checkC04(c *Ctx, r *Report) {
 	ruleIRWriters(c, r, "C04.a", "definitions.RouteSecurity", "definitions.RouteMetadata", "definitions.SecurityAnnotationComponent")
 	// the names and scopes the router enforces and the spec documents are the same strings: nobody rewrites them in place
 	checkNoInPlaceWritesToInputs(c, r, "C04.a", "core/metadata", "generator/swagen", "generator/routes")
+	checkContainerFields(c, r, "C04.a")
 	// ... the annotation grammar decides what a @Security name / scope may be, and no new pattern re-spells one on the way into the document (a pattern outside the reviewed table is reported wherever it is)
 	ruleRegexInventory(c, r, "C04.b", "core/annotations")
 }
